@@ -61,6 +61,9 @@ func modsLine(n *chain.Node) string {
 func boot() (*chain.World, chain.GenesisOpts, *chain.Node, *bankdrv.Stepper) {
 	chain.ModernGlobals()
 	w, o := chain.DefaultWorld("verif", 3, 2, 2, 4)
+	// validators hold two stake bins: BurnForChallenge then burns a non-zero amount on every call and
+	// the validator stays above the minimum (with minimum+1e6 the weight bin rounds to 0: C27's subject)
+	o.ValidatorStake = 2 * o.MinStake
 	g := chain.BuildGenesis(o)
 	n := chain.NewNode(g, "verif", o.GenesisTime, dbm.NewMemDB(), dbm.NewMemDB(), dbm.NewMemDB(), false)
 	n.InitChain()
@@ -136,6 +139,14 @@ func runOps(t *gen.Trace, r *gen.R, nops int) {
 			return int64(1 + r.Intn(2000000))
 		}
 	}
+	// the node staking pool is never drained by the generated bank operations, so that the real burn
+	// sites (slash via BurnForChallenge) keep finding the tokens they burn
+	gentle := func(m string, amt int64) int64 {
+		if m == nodesTypes.StakedPoolName && amt > 2000000 {
+			return 1 + amt%2000000
+		}
+		return amt
+	}
 	balOf := func(a sdk.Address) sdk.BigInt { return ak.GetCoins(n.Ctx(), a).AmountOf(sdk.DefaultStakeDenom) }
 	for i := 0; i < nops; i++ {
 		if i > 0 && i%50 == 0 {
@@ -156,7 +167,7 @@ func runOps(t *gen.Trace, r *gen.R, nops int) {
 			call = func() sdk.Error { return ak.SendCoins(ctx, src, dst, bankdrv.Coins(amt)) }
 		case k < 40:
 			m, dst := mods[r.Intn(len(mods))], addrs[r.Intn(len(addrs))]
-			amt := pickAmt(balOf(ak.GetModuleAddress(m)))
+			amt := gentle(m, pickAmt(balOf(ak.GetModuleAddress(m))))
 			desc = fmt.Sprintf("modToAcc %s %s %d", m, dst, amt)
 			call = func() sdk.Error { return ak.SendCoinsFromModuleToAccount(ctx, m, dst, bankdrv.Coins(amt)) }
 		case k < 52:
@@ -166,7 +177,7 @@ func runOps(t *gen.Trace, r *gen.R, nops int) {
 			call = func() sdk.Error { return ak.SendCoinsFromAccountToModule(ctx, src, m, bankdrv.Coins(amt)) }
 		case k < 60:
 			m1, m2 := mods[r.Intn(len(mods))], mods[r.Intn(len(mods))]
-			amt := pickAmt(balOf(ak.GetModuleAddress(m1)))
+			amt := gentle(m1, pickAmt(balOf(ak.GetModuleAddress(m1))))
 			desc = fmt.Sprintf("modToMod %s %s %d", m1, m2, amt)
 			call = func() sdk.Error { return ak.SendCoinsFromModuleToModule(ctx, m1, m2, bankdrv.Coins(amt)) }
 		case k < 72:
@@ -176,7 +187,7 @@ func runOps(t *gen.Trace, r *gen.R, nops int) {
 			call = func() sdk.Error { return ak.MintCoins(ctx, m, bankdrv.Coins(amt)) }
 		case k < 84:
 			m := mods[r.Intn(len(mods))]
-			amt := pickAmt(balOf(ak.GetModuleAddress(m)))
+			amt := gentle(m, pickAmt(balOf(ak.GetModuleAddress(m))))
 			desc = fmt.Sprintf("burn %s %d", m, amt)
 			call = func() sdk.Error { return ak.BurnCoins(ctx, m, bankdrv.Coins(amt)) }
 		case k < 90:
